@@ -1,6 +1,6 @@
 (* C16 — transforming or mirroring a neuron moves its coordinates and nothing else. *)
 From Coq Require Import List ZArith QArith Bool.
-From Navis Require Import model.XformN proofs.XformNProofs.
+From Navis Require Import model.XformN proofs.XformNProofs model.Magnitude proofs.MagnitudeProofs.
 
 Theorem C16_slices_are_images : forall A (f : A -> A) (blocks : list (list A)), xform_blocks f blocks = map (map f) blocks.
 Proof. intros A. exact (@slices_are_images A). Qed.
@@ -29,3 +29,21 @@ Theorem C16_helper_tangents_unit : forall vx vy vz n : Q, ~ (n == 0)%Q -> (n * n
   ((vx / n) * (vx / n) + (vy / n) * (vy / n) + (vz / n) * (vz / n) == 1)%Q.
 Proof. exact helper_tangent_unit. Qed.
 Print Assumptions C16_helper_tangents_unit.
+
+(* ---- the detected power of ten (model/Magnitude.v = round(log10 mean distance ratio), computed exactly on squares) ---- *)
+Theorem C16_magnitude_sound : forall c k, magnitude c = Some k -> (0 < c)%Q /\ in_decade (c * c)%Q k.
+Proof. exact magnitude_sound. Qed.
+Print Assumptions C16_magnitude_sound.
+Theorem C16_magnitude_unique : forall c2 k k', in_decade c2 k -> in_decade c2 k' -> k = k'.
+Proof. exact decade_unique. Qed.
+Print Assumptions C16_magnitude_unique.
+Theorem C16_magnitude_of_power_of_ten : forall k m, magnitude (ten ^ k) = Some m -> m = k.
+Proof. exact magnitude_pow10. Qed.
+Print Assumptions C16_magnitude_of_power_of_ten.
+Theorem C16_magnitude_window : forall c k m, magnitude c = Some m -> (ten ^ (2 * k - 1) <= c * c)%Q -> (c * c < ten ^ (2 * k + 1))%Q -> m = k.
+Proof. exact magnitude_window. Qed.
+Print Assumptions C16_magnitude_window.
+(* every pairwise distance changes by the same factor under a uniform scale and shift: the mean ratio IS the scale *)
+Theorem C16_similarity_ratio : forall s t a b, (sqdist (scale_shift s t a) (scale_shift s t b) == (s * s) * sqdist a b)%Q.
+Proof. exact similarity_sqdist. Qed.
+Print Assumptions C16_similarity_ratio.
